@@ -373,6 +373,20 @@ def scan_order_worker(seed):
     if len(set(louts)) > 1:
         problems.append({"what": "two level-limited scans of the same tree differ (directory enumeration order)", "files": dict(tree2),
                          "module_path": mp2, "level_limit": lim, "outs": louts})
+    # what was scanned in between must not matter: a level-limited scan that excludes a directory, then a full scan of the same
+    # tree without exclusions (which gets to know the modules of that directory), then the first scan again. The directory has a
+    # name no other case of this process uses.
+    u = f"gen{seed % 1000003}"
+    tree3 = {"proj": None, "proj/__init__.py": "", "proj/web": None, "proj/web/__init__.py": "", "proj/web/v.py": f"import proj.db.{u}.schema\nimport proj.db.{u}\n",
+             "proj/db": None, "proj/db/__init__.py": "", f"proj/db/{u}": None, f"proj/db/{u}/__init__.py": "", f"proj/db/{u}/schema.py": "import proj.web.v\n"}
+    with sc.write_project(tree3) as proj:
+        kw = {"exclusions": (f"*{u}*",), "level_limit": rng.randint(1, 2)}
+        first = sc.real_scan(proj, "proj", "proj", **kw)
+        sc.real_scan(proj, "proj", "proj", exclusions=())
+        again = sc.real_scan(proj, "proj", "proj", **kw)
+    if first != again:
+        problems.append({"what": "two scans of the same tree with the same arguments differ when another scan was made in between", "files": dict(tree3),
+                         "options": {k: list(v) if isinstance(v, tuple) else v for k, v in kw.items()}, "first": first, "again": again})
     # a package reachable under two names: a directory link to a sibling directory of the same tree (no cycle). Both names are
     # scanned, whichever the file system lists first.
     sub = sorted(p for p, v in tree2.items() if v is None and p != "proj")
@@ -494,6 +508,14 @@ def run(ctx: Ctx):
             ctx.violations.append(p)
     s.finish()
 
+    if not ctx.violations:
+        # diagram rule objects: applied in the other mode first, re-configured with another base module and applied again
+        from . import c07
+
+        s = Stream(ctx, "(i'') one DiagramRule object re-configured (other base module, other mode) and applied again vs a fresh object")
+        rng7 = ctx.rng("c15-diagrams")
+        c07.judge(ctx, s, [c07.make_case(rng7, gen.PLAIN, absent=False) for _ in range(ctx.size(1500, 30000))])
+        s.finish()
     if not ctx.violations:
         from ..rules_common import reuse_stream
 
